@@ -98,8 +98,10 @@ def executeCode (dec thou : String) (code : String) (v : F) : Option F :=
 
 def findItem? (items : List (UnitItem F)) (idx : Nat) : Option (UnitItem F) := items.find? (·.index = idx)
 
-/-- `calculate_unit`: apply the up/down code of each item from `src` towards `tgt` -/
-def calculateUnit (dec thou : String) (items : List (UnitItem F)) (v : F) (src tgt : Nat) : Option F :=
+/-- `calculate_unit`: apply the up/down code of each item from `src` towards `tgt`; `ex` is the
+    code executor (`execute_code`), a parameter so that theorems can be stated for every executor
+    with a given behaviour -/
+def calculateUnitWith (ex : String → F → Option F) (items : List (UnitItem F)) (v : F) (src tgt : Nat) : Option F :=
   if src = tgt then some v else
   match findItem? items src with
   | none => none
@@ -109,7 +111,7 @@ def calculateUnit (dec thou : String) (items : List (UnitItem F)) (v : F) (src t
       match fuel with
       | 0 => none
       | fuel + 1 =>
-        match executeCode dec thou (if up then cur.up else cur.down) v with
+        match ex (if up then cur.up else cur.down) v with
         | none => none
         | some v' =>
           match findItem? items search with
@@ -121,15 +123,18 @@ def calculateUnit (dec thou : String) (items : List (UnitItem F)) (v : F) (src t
     if up then loop (items.length + 1) v first (src + 1)
     else if src = 0 then none else loop (items.length + 1) v first (src - 1)
 
-/-- `DynamicTypeItem::convert(config, number, source_type, target_name)` -/
-def convertUnit (c : Cfg F) (v : F) (src : UnitRef) (target : String) : Option (F × UnitRef) :=
+def calculateUnit (dec thou : String) (items : List (UnitItem F)) (v : F) (src tgt : Nat) : Option F :=
+  calculateUnitWith (executeCode dec thou) items v src tgt
+
+/-- `DynamicTypeItem::convert(config, number, source_type, target_name)` for a code executor `ex` -/
+def convertUnitWith (ex : String → F → Option F) (c : Cfg F) (v : F) (src : UnitRef) (target : String) : Option (F × UnitRef) :=
   match assoc? c.units src.group with
   | none => none
   | some group =>
     match group.find? (fun it => it.names.contains target) with
     | some tgt =>
       if src.index = tgt.index then some (v, src)
-      else (calculateUnit c.dec c.thou group v src.index tgt.index).map (fun w => (w, ⟨src.group, tgt.index⟩))
+      else (calculateUnitWith ex group v src.index tgt.index).map (fun w => (w, ⟨src.group, tgt.index⟩))
     | none =>
       match c.bridges.find? (fun b => b.srcName = src.group || b.tgtName = src.group) with
       | none => none
@@ -139,10 +144,10 @@ def convertUnit (c : Cfg F) (v : F) (src : UnitRef) (target : String) : Option (
         match findItem? group sIdx with
         | none => none
         | some _ =>
-          match calculateUnit c.dec c.thou group v src.index sIdx with
+          match calculateUnitWith ex group v src.index sIdx with
           | none => none
           | some v1 =>
-            match executeCode c.dec c.thou (if fromSource then b.toSource else b.toTarget) v1 with
+            match ex (if fromSource then b.toSource else b.toTarget) v1 with
             | none => none
             | some v2 =>
               let otherName := if fromSource then b.tgtName else b.srcName
@@ -154,7 +159,10 @@ def convertUnit (c : Cfg F) (v : F) (src : UnitRef) (target : String) : Option (
                 | some tgt =>
                   match findItem? og tIdx with
                   | none => none
-                  | some _ => (calculateUnit c.dec c.thou og v2 tIdx tgt.index).map (fun w => (w, ⟨otherName, tgt.index⟩))
+                  | some _ => (calculateUnitWith ex og v2 tIdx tgt.index).map (fun w => (w, ⟨otherName, tgt.index⟩))
+
+def convertUnit (c : Cfg F) (v : F) (src : UnitRef) (target : String) : Option (F × UnitRef) :=
+  convertUnitWith (executeCode c.dec c.thou) c v src target
 
 /-- the conversion used by `DynamicTypeItem::calculate`: the other quantity into self's unit,
     addressed by self's first name -/
